@@ -108,6 +108,7 @@ type startRec struct {
 	at    time.Time
 	stamp int64
 	ret   int64
+	by    int64 // cached startedBy
 }
 
 type wakeRec struct {
@@ -387,11 +388,31 @@ func isDone(ctx context.Context) bool {
 	}
 }
 
+// startedBy is the logical stamp at which the scheduler decided to start job s:
+// the stamp of the wake hook of that instant that precedes the job body (the
+// body itself may begin later), or the body's own stamp if no hook is known.
+func (w *world) startedBy(s *startRec) int64 {
+	if s.by != 0 {
+		return s.by
+	}
+	s.by = s.stamp
+	for i := len(w.wakes) - 1; i >= 0; i-- {
+		if k := w.wakes[i]; k.stamp < s.stamp && k.at.Equal(s.at) {
+			s.by = k.stamp
+			break
+		}
+	}
+	return s.by
+}
+
 // checkCtx judges the contexts returned by Stop. It is exact at any moment for
-// "not done while a job started before Stop was called is still running"
-// (w.mu is held, so that job cannot return meanwhile) and, at a quiescent
-// point only, for "done once every started job has returned".
-func (w *world) checkCtx(quiescent bool, where string) {
+// "not done while a job started before Stop returned is still running": the
+// scheduler goroutine starts the jobs of a wake-up before it can receive the
+// stop request, so a wake hook stamped before Stop's return means its jobs were
+// started before Stop returned; w.mu is held, so such a job cannot return
+// meanwhile. At a quiescent point only it also judges "done once every started
+// job has returned". Returns how many (context, running job) pairs it checked.
+func (w *world) checkCtx(quiescent bool, where string) (heldPairs int) {
 	w.mu.Lock()
 	var sig, msg string
 	outstanding := 0
@@ -407,11 +428,25 @@ func (w *world) checkCtx(quiescent bool, where string) {
 		done := isDone(o.ctx)
 		held := false
 		for _, s := range w.starts {
-			if s.ret == 0 && s.stamp < o.call {
+			if s.ret != 0 {
+				continue
+			}
+			by := w.startedBy(s)
+			switch {
+			case s.stamp < o.call:
 				held = true
+				heldPairs++
 				if done {
 					sig = "stop-ctx/done-while-job-running/" + where
 					msg = fmt.Sprintf("the context returned by Stop (call stamp %d) is Done although the job of entry %d started at %s (stamp %d) has not returned", o.call, s.e.h, ft(s.at), s.stamp)
+				}
+			case o.ret != 0 && by < o.ret:
+				held = true
+				heldPairs++
+				rec.Count("stopctx.job_started_between_stop_call_and_return", 1)
+				if done {
+					sig = "stop-ctx/done-while-started-job-running/" + where
+					msg = fmt.Sprintf("the context returned by Stop (call stamp %d, return stamp %d) is Done although the job of entry %d, started at %s by the wake-up stamped %d (job body stamp %d) - i.e. before Stop returned - has not returned", o.call, o.ret, s.e.h, ft(s.at), by, s.stamp)
 				}
 			}
 		}
@@ -430,6 +465,7 @@ func (w *world) checkCtx(quiescent bool, where string) {
 	if sig != "" {
 		w.violation(sig, msg)
 	}
+	return heldPairs
 }
 
 func ft(t time.Time) string {
@@ -503,10 +539,10 @@ type plan struct {
 func TestCheck(t *testing.T) {
 	rec = mon.Open("C05")
 	defer rec.Close()
-	rec.Note("rule", "a case is one history of 10-60 Schedule/AddFunc/Remove/Entries/Entry/Start/Stop/release operations and clock advances run against the real Cron inside a synctest bubble, over 1-8 entries drawn from @every 1/2/3/5/7/2.5s and seconds-resolution specs (equal, nested, co-prime, phase-shifted, unsatisfiable), jobs returning at once or blocking on a gate. (lockstep) default RealClock on virtual time, synctest.Wait after every operation, the multiset of job starts and every Entries/Entry snapshot must EQUAL a reference scheduler built on the real Schedule.Next; sleeps go to exact activation instants, between them and far past them. (jump) the same on internal/vclock, the clock jumps over several activations in one step: one start per due entry per wake-up. (racing) 2-6 goroutines issue operations at chosen virtual instants (mostly whole seconds = activation instants), the scheduler is perturbed at the arm/wake hooks and in 1/3 of the cases parked there while operations are placed; in half of the cases the RealClock's timers deliver through a proxy (hook timer) that can hold a fired timer within its instant, so that a client call of the same instant reaches the select first; an offline judge sweeps the stamped log: exact activation instants, starts optional only where a Remove of that entry or a Stop shares the instant and stamps do not decide. Non-trivial = at least one job start was observed and compared; distinct = distinct operation list.")
+	rec.Note("rule", "a case is one history of 10-60 Schedule/AddFunc/Remove/Entries/Entry/Start/Stop/release operations and clock advances run against the real Cron inside a synctest bubble, over 1-8 entries drawn from @every 1/2/3/5/7/2.5s and seconds-resolution specs (equal, nested, co-prime, phase-shifted, unsatisfiable), jobs returning at once or blocking on a gate. (lockstep) default RealClock on virtual time, synctest.Wait after every operation, the multiset of job starts and every Entries/Entry snapshot must EQUAL a reference scheduler built on the real Schedule.Next; sleeps go to exact activation instants, between them and far past them. (jump) the same on internal/vclock, the clock jumps over several activations in one step: one start per due entry per wake-up. (racing) 2-6 goroutines issue operations at chosen virtual instants (mostly whole seconds = activation instants), the scheduler is perturbed at the arm/wake hooks and in 1/3 of the cases parked there while operations are placed; in half of the cases the RealClock's timers deliver through a proxy (hook timer) that can hold a fired timer within its instant, so that a client call of the same instant reaches the select first; an offline judge sweeps the stamped log: exact activation instants, starts optional only where a Remove of that entry or a Stop shares the instant and stamps do not decide. (directed) entries with blocking jobs due at T, the scheduler parked at the wake hook (timer received, nothing started yet) or the arm hook at T, Stop - once or twice - and optionally Remove/Schedule/Entries issued meanwhile, scheduler resumed: no context returned by Stop may be Done while a job started before that Stop returned (wake hook stamp < Stop return stamp) is blocked on the gate, all Done after the release; judged by the racing judge as well. Non-trivial = at least one job start was observed and compared; distinct = distinct operation list.")
 	rec.Observe("jump: number of armed vclock timers after an operation (more than one would mean an abandoned timer); counted as jump.observed_more_than_one_armed_timer, not judged - the statement does not speak about timers")
 	rec.Observe("order of the Entries() slice (sorted by Next as of the last loop iteration, unstable among equals): snapshots are compared as sets keyed by ID")
-	rec.Note("require", []string{"starts.compared", "lockstep.entries_compared", "jump.multi_activation_jumps", "jump.starts_once_per_wake", "racing.same_instant.total", "racing.ops_at_activation_instant", "racing.parked.wake", "racing.parked.arm", "racing.parked.timer", "racing.same_instant.remove_vs_wake.started", "racing.same_instant.remove_vs_wake.not_started", "racing.same_instant.stop_vs_wake.not_started", "racing.same_instant.stop_vs_wake.wake_first_all_due_required", "racing.same_instant.entries_vs_transition.saw_pre", "racing.same_instant.entries_vs_transition.saw_post", "stopctx.seen_not_done_while_job_blocked", "stopctx.done_after_jobs_returned", "restart.recomputed", "hook.wake", "hook.arm"})
+	rec.Note("require", []string{"starts.compared", "lockstep.entries_compared", "jump.multi_activation_jumps", "jump.starts_once_per_wake", "racing.same_instant.total", "racing.ops_at_activation_instant", "directed.stop_during_wake", "directed.stop_during_wake.no_job_running_yet", "directed.stop_during_arm", "directed.stop_ctx_checked_while_job_blocked", "directed.stop_ctx_checked_after_release", "stopctx.job_started_between_stop_call_and_return", "racing.parked.wake", "racing.parked.arm", "racing.parked.timer", "racing.same_instant.remove_vs_wake.started", "racing.same_instant.remove_vs_wake.not_started", "racing.same_instant.stop_vs_wake.not_started", "racing.same_instant.stop_vs_wake.wake_first_all_due_required", "racing.same_instant.entries_vs_transition.saw_pre", "racing.same_instant.entries_vs_transition.saw_post", "stopctx.seen_not_done_while_job_blocked", "stopctx.done_after_jobs_returned", "restart.recomputed", "hook.wake", "hook.arm"})
 	nLock := mon.Pick(900, 40000)
 	nJump := mon.Pick(500, 25000)
 	nRace := mon.Pick(1000, 35000)
@@ -520,6 +556,9 @@ func TestCheck(t *testing.T) {
 	for i := 0; i < nRace; i++ {
 		ps = append(ps, plan{"racing"})
 	}
+	for i := mon.Pick(300, 6000); i > 0; i-- {
+		ps = append(ps, plan{"directed"})
+	}
 	rec.Planned(len(ps))
 	for idx, pl := range ps {
 		if !mon.Mine(idx) {
@@ -531,6 +570,8 @@ func TestCheck(t *testing.T) {
 			runLockstep(t, idx, pl.mode, rng)
 		case "racing":
 			runRacing(t, idx, rng)
+		case "directed":
+			runDirected(t, idx, rng)
 		}
 	}
 }
